@@ -11,5 +11,5 @@ else
   git reset -q --hard HEAD
   echo "PATCH DOES NOT APPLY: $PATCH"; exit 3
 fi
-cd /verif && ./check "$PROP" "$TIER" 2>&1 | grep -E "^(VIOLATION|KNOWN|HARNESS|C[0-9]+:|violation found|error)" | cut -c1-300
+cd /verif && ./check "$PROP" "$TIER" 2>&1 | grep -E "^(VIOLATION|KNOWN|HARNESS|C[0-9]+:|violation found|error)" | cut -c1-${CUT:-300}
 cd /repo && git reset -q --hard HEAD && git clean -fdq src unimock_macros tests 2>/dev/null
